@@ -222,6 +222,47 @@ theorem fold_nodup (es : List (CK × Resp)) (p : Proxy)
       · exact nodup_aput _ _ _ h2
       · exact h2
 
+/-! ### the stored responses are the signer's, value for value -/
+
+theorem applyEntry_openResp_get_ne (p : Proxy) (e : CK × Resp) (ck : CK) (hne : e.1 ≠ ck) :
+    aget (applyEntry p e).openResp ck = aget p.openResp ck := by
+  unfold applyEntry
+  split
+  · simp only [aget_aput, hne, if_false]
+  · rfl
+
+theorem fold_openResp_get_other (es : List (CK × Resp)) (p : Proxy) (ck : CK)
+    (h : ck ∉ keysOf es) : aget (es.foldl applyEntry p).openResp ck = aget p.openResp ck := by
+  induction es generalizing p with
+  | nil => rfl
+  | cons e t ih =>
+    simp only [List.foldl]
+    simp only [keysOf, List.map_cons, List.mem_cons, not_or] at h
+    rw [ih (applyEntry p e) h.2]
+    exact applyEntry_openResp_get_ne p e ck (fun x => h.1 x.symm)
+
+/-- After an accepted response every entry (of a known child, keys pairwise different) is stored
+as the waiting response for its child and key – exactly the signer's value. -/
+theorem fold_openResp_get (es : List (CK × Resp)) (p : Proxy)
+    (hnd : (keysOf es).Nodup) (hk : ∀ e ∈ es, p.known e.1.1 = true) (e : CK × Resp) (he : e ∈ es) :
+    aget (es.foldl applyEntry p).openResp e.1 = some e.2 := by
+  induction es generalizing p with
+  | nil => cases he
+  | cons x t ih =>
+    simp only [List.foldl]
+    simp only [keysOf, List.map_cons, List.nodup_cons] at hnd
+    have hk' : ∀ e ∈ t, (applyEntry p x).known e.1.1 = true := by
+      intro e' he'
+      have := hk e' (List.mem_cons_of_mem _ he')
+      simp only [Proxy.known] at this ⊢
+      rw [applyEntry_children]; exact this
+    rcases List.mem_cons.mp he with rfl | he
+    · rw [fold_openResp_get_other t (applyEntry p e) e.1 hnd.1]
+      have hke := hk e List.mem_cons_self
+      unfold applyEntry
+      simp only [hke, if_true, aget_aput]
+    · exact ih (applyEntry p x) hnd.2 hk' he
+
 /-! ### the signer answers exactly the requests it was given -/
 
 theorem addIssued_number (o : Objects) (k : Key) (n : Nat) :
@@ -280,6 +321,59 @@ theorem signAll_spec (res : List (Child × List Nat)) (es : List (CK × Req)) (a
       refine ⟨?_, ih2.trans hn⟩
       rw [ih1, hx]
       simp [keysOf]
+
+theorem signOne_kind (res : List (Child × List Nat)) (a a' : Acc) (e : CK × Req)
+    (h : signOne res a e = .ok a') :
+    ∃ x, a'.out = a.out ++ [(e.1, x)] ∧ e.2.matchesResponse x = true ∧ x ≠ .error := by
+  unfold signOne at h
+  cases hk : e.2.kind
+  · simp only [hk] at h
+    by_cases c1 : e.2.cls ≠ 0
+    · simp [c1] at h
+    · simp only [c1, if_false] at h
+      cases c2 : subset e.2.limit ((aget res e.1.1).getD []) with
+      | false => simp [c2] at h
+      | true =>
+        cases c3 : e.2.csrOk with
+        | false => simp [c2, c3] at h
+        | true =>
+          simp only [c2, c3, Bool.not_true, Bool.false_eq_true, if_false, Except.ok.injEq] at h
+          subst h
+          exact ⟨_, rfl, by simp [Req.matchesResponse, hk], by intro x; cases x⟩
+  · simp only [hk] at h
+    by_cases c1 : e.2.cls ≠ 0
+    · simp [c1] at h
+    · simp only [c1, if_false] at h
+      cases ho : a.objects.revokeIssued e.1.2 with
+      | none => simp [ho] at h
+      | some o =>
+        simp only [ho, Except.ok.injEq] at h
+        subst h
+        exact ⟨_, rfl, by simp [Req.matchesResponse, hk], by intro x; cases x⟩
+
+/-- Every answer the signer gives is for one of the requests, of the matching kind, never the
+`Error` placeholder. -/
+theorem signAll_kinds (res : List (Child × List Nat)) (es : List (CK × Req)) (a a' : Acc)
+    (h : signAll res a es = .ok a') :
+    ∀ o ∈ a'.out, o ∈ a.out ∨ ∃ e ∈ es, e.1 = o.1 ∧ e.2.matchesResponse o.2 = true ∧ o.2 ≠ .error := by
+  induction es generalizing a with
+  | nil => simp only [signAll] at h; cases h; intro o ho; exact Or.inl ho
+  | cons e t ih =>
+    simp only [signAll] at h
+    cases h1 : signOne res a e with
+    | error x => simp [h1] at h
+    | ok a1 =>
+      simp only [h1] at h
+      obtain ⟨x, hx, hm, hne⟩ := signOne_kind res a a1 e h1
+      intro o ho
+      rcases ih a1 h o ho with h2 | ⟨e', he', h3⟩
+      · rw [hx] at h2
+        rcases List.mem_append.mp h2 with h2 | h2
+        · exact Or.inl h2
+        · simp only [List.mem_singleton] at h2
+          subst h2
+          exact Or.inr ⟨e, List.mem_cons_self, rfl, hm, hne⟩
+      · exact Or.inr ⟨e', List.mem_cons_of_mem _ he', h3⟩
 
 theorem processSignerRequest_ok (s s' : Signer) (m : Signed ReqBody) (ovr : Option Nat)
     (r : Signed RespBody) (h : processSignerRequest s m ovr = .ok (s', r)) :
